@@ -14,38 +14,48 @@ open PV.Base64 PV.Spec.Base64 PV.Spec.Records
 
 /-- `TABLE` is the RFC 4648 alphabet. -/
 theorem table_is_alphabet : ∀ i, i < 64 → tbl i = alpha i := by
-  sorry
+  exact PV.Lemmas.Base64.tbl_alpha
 
 /-- `INV_TABLE` is exactly the inverse of the alphabet: -1 on every foreign byte (all 256
     entries are examined), the index on members. -/
 theorem inv_table_exact (b : UInt8) :
     (inAlphabet b = false → inv b = -1) ∧ (∀ i, i < 64 → alpha i = b → inv b = (i : Int)) := by
-  sorry
+  refine ⟨PV.Lemmas.Base64.inv_foreign b, ?_⟩
+  intro i hi hb
+  subst hb
+  exact PV.Lemmas.Base64.inv_alpha i hi
 
 /-- Encoding any byte string yields its RFC 4648 base64 with padding. -/
 theorem encode_eq_rfc4648 (bs : List UInt8) : encode bs = rfc4648 bs := by
-  sorry
+  exact PV.Lemmas.Base64.encode_eq bs
 
 /-- Decoding the encoding returns the original bytes. -/
 theorem decode_encode (bs : List UInt8) : decode (encode bs) = .ok bs := by
-  sorry
+  exact PV.Lemmas.Base64.decode_encode' bs
 
 /-- ... also with the padding removed. -/
 theorem decode_encode_unpadded (bs : List UInt8) : decode (stripPad (encode bs)) = .ok bs := by
-  sorry
+  rw [PV.Lemmas.Base64.encode_eq]
+  exact PV.Lemmas.Base64.decode_rfc_stripped bs
 
 /-- Decoding fails, instead of producing data, whenever a byte outside the alphabet occurs
     before the first '='. -/
 theorem decode_rejects_foreign (s : List UInt8)
     (h : ∃ b ∈ beforePad s, inAlphabet b = false) : ∀ o, decode s ≠ .ok o := by
-  sorry
+  intro o
+  unfold decode
+  split
+  · intro hh; cases hh
+  · exact PV.Lemmas.Base64.decLoop_foreign s 0 (-8) [] h o
 
 /-- Conversely text made of alphabet characters (then optional '=' …) is accepted unless
     the reserve computation underflows (more trailing '=' than 3/4 of the length). -/
 theorem decode_accepts_alphabet (s : List UInt8)
     (h : ∀ b ∈ beforePad s, inAlphabet b = true) (hp : countPadding s ≤ s.length * 3 / 4) :
     ∃ o, decode s = .ok o := by
-  sorry
+  unfold decode
+  rw [if_neg (by omega)]
+  exact PV.Lemmas.Base64.decLoop_alpha s 0 (-8) [] h
 
 /-- A document for the default separator: newline-terminated non-empty lines (no blank line,
     no newline inside a line).  The empty document is included. -/
@@ -57,24 +67,46 @@ def NlDoc (d : List UInt8) : Prop :=
 theorem docenc_roundtrip_nl (ds : List (List UInt8)) (h : ∀ d ∈ ds, NlDoc d) :
     (PV.Docenc.decode false [] (unlines (ds.map encode))).map (PV.Docenc.encode false []) =
       some (unlines (ds.map encode)) := by
-  sorry
+  have hd : PV.Docenc.decode false [] (unlines (ds.map encode)) = some (ds.flatMap (· ++ [10])) := by
+    unfold PV.Docenc.decode
+    rw [PV.Lemmas.Base64.split_encoded, PV.Lemmas.Base64.select_nil]
+    exact PV.Lemmas.Base64.decodeLines_encoded 10 ds
+  rw [hd, Option.map_some]
+  congr 1
+  unfold PV.Docenc.encode
+  simp only [Bool.false_eq_true, if_false]
+  rw [show PV.Gen.docencEncodeStripCr = false from rfl, PV.Lemmas.Base64.docsNl_docs ds h,
+    PV.Lemmas.Base64.select_nil]
 
 /-- Same for `-0` and NUL-free, non-empty documents (an empty document cannot be told from
     "no document" at end of input; the tool documents the separator confusion). -/
 theorem docenc_roundtrip_nul (ds : List (List UInt8)) (h : ∀ d ∈ ds, d ≠ [] ∧ (0 : UInt8) ∉ d) :
     (PV.Docenc.decode true [] (unlines (ds.map encode))).map (PV.Docenc.encode true []) =
       some (unlines (ds.map encode)) := by
-  sorry
+  have hd : PV.Docenc.decode true [] (unlines (ds.map encode)) = some (ds.flatMap (· ++ [0])) := by
+    unfold PV.Docenc.decode
+    rw [PV.Lemmas.Base64.split_encoded, PV.Lemmas.Base64.select_nil]
+    exact PV.Lemmas.Base64.decodeLines_encoded 0 ds
+  rw [hd, Option.map_some]
+  congr 1
+  unfold PV.Docenc.encode PV.Docenc.docsNul
+  simp only [if_true]
+  rw [show PV.Gen.docencEncodeStripCr = false from rfl,
+    PV.Lemmas.Base64.splitRecords_flatMap 0 false ds (fun d hd => (h d hd).2),
+    PV.Lemmas.Base64.select_nil]
+  congr 2
+  rw [List.map_congr_left (fun d _ => PV.Lemmas.Base64.stripOneCr_false d), List.map_id']
 
 /-- Index arguments select exactly the listed documents: for a strictly increasing list of
     positive indices the walk returns the documents at those (1-based) positions. -/
 theorem index_selection {α : Type} (ind : List Nat) (ds : List α)
     (hpos : ∀ i ∈ ind, 0 < i) (hsorted : ind.Pairwise (· < ·)) (hne : ind ≠ []) :
     PV.Docenc.select ind ds = ind.filterMap (fun i => ds[i - 1]?) := by
-  sorry
+  have := PV.Lemmas.Base64.selectFrom_spec ds 0 ind hne hpos hsorted
+  simpa [PV.Docenc.select] using this
 
 theorem index_selection_all {α : Type} (ds : List α) : PV.Docenc.select [] ds = ds := by
-  sorry
+  exact PV.Lemmas.Base64.select_nil ds
 
 -- non-vacuity
 example : encode [0x41, 0x42, 0x43] = [0x51, 0x55, 0x4A, 0x44] := by decide
